@@ -6,6 +6,7 @@ package main
 
 import (
 	"bytes"
+	"time"
 	"context"
 	"errors"
 	"flag"
@@ -125,7 +126,22 @@ func main() {
 	var se bytes.Buffer
 	cmd.Stderr = &se
 	cmd.Stdout = &se
-	err := cmd.Run()
+	// the free-running child is killed after 120 s (it normally takes 2-5 s): a mutant that makes a massive call hang
+	// must not hang the check; the hang itself is decided by the exhaustive part, here it is only an indicator
+	if err := cmd.Start(); err != nil {
+		fmt.Fprintln(os.Stderr, err)
+		os.Exit(3)
+	}
+	done := make(chan error, 1)
+	go func() { done <- cmd.Wait() }()
+	var err error
+	select {
+	case err = <-done:
+	case <-time.After(120 * time.Second):
+		cmd.Process.Kill()
+		err = <-done
+		c.Inc("child_killed_after_120s")
+	}
 	c.R.Evaluations = int64(reps * 3 * (5*6 + 1))
 	c.R.Transitions = c.R.Evaluations
 	c.R.States = 1
